@@ -1219,6 +1219,25 @@ impl Ri {
             }
             _ => {}
         }
+        // a primitive that walks a list costs steps in proportion to what it walks (a loop that
+        // appends or reverses a long list every iteration must run into the step budget)
+        if matches!(name, "append" | "reverse" | "length" | "list->vector" | "vector->list" | "list-tail" | "list-ref" | "equal?" | "member" | "assoc" | "memq" | "memv" | "assq" | "assv" | "vector-fill!" | "make-vector" | "apply") {
+            let mut work = 0u64;
+            for a in args.iter() {
+                let mut cur = a.clone();
+                let mut n = 0u64;
+                while let Val::Pair(p) = cur {
+                    n += 1;
+                    if n > 1_000_000 {
+                        break;
+                    }
+                    let next = p.1.borrow().clone();
+                    cur = next;
+                }
+                work += n;
+            }
+            self.steps += work / 16;
+        }
         let v = pure_prim(name, &args)?;
         Ok((Ctl::Ret(v), k))
     }
@@ -1610,8 +1629,15 @@ fn pure_prim(name: &'static str, a: &[Val]) -> Result<Val, Stop> {
                 Val::Nil
             } else {
                 let mut tail = a[a.len() - 1].clone();
+                // the step budget does not bound the size of data: (append x x) in a loop doubles
+                // a list per step
+                let mut total = 0usize;
                 for l in a[..a.len() - 1].iter().rev() {
                     let items = list_to_vec(l).ok_or(Stop::Undetermined("append: improper list".into()))?;
+                    total += items.len();
+                    if total > 50_000 {
+                        return undet("append: list too long for the reference");
+                    }
                     tail = Val::list(items, tail);
                 }
                 tail
@@ -1800,6 +1826,9 @@ fn pure_prim(name: &'static str, a: &[Val]) -> Result<Val, Stop> {
                 match x {
                     Val::Str(s) => out.push_str(&s.borrow()),
                     _ => return undet("string-append type"),
+                }
+                if out.len() > 200_000 {
+                    return undet("string-append: string too long for the reference");
                 }
             }
             Val::Str(Rc::new(RefCell::new(out)))
